@@ -111,6 +111,24 @@ Theorem trust_follows_configuration cfg p :
 Proof. exact (trust_configured cfg p). Qed.
 Print Assumptions trust_follows_configuration.
 
+(* the configuration as written in the file: for every trusted_peers value (absent, null, any list in any order, "*" at
+   any position) a peer other than the component itself is trusted after loading iff it, or "*", is listed *)
+Theorem trust_follows_configuration_file me tp p :
+  trust_crdt (cfg_of_json me tp) [] p = true <-> p = me \/ exists l, tp = Some l /\ (In TStar l \/ In (TPeer p) l).
+Proof. exact (trust_json_l me tp p). Qed.
+Print Assumptions trust_follows_configuration_file.
+
+Example no_trusted_peers_key_trusts_nobody : trust_crdt (cfg_of_json 0 None) [] 3 = false /\
+  trust_crdt (cfg_of_json 0 (Some [TPeer 2; TStar; TPeer 4])) [] 3 = true /\
+  trust_crdt (cfg_of_json 0 (Some [TPeer 2; TPeer 4])) [] 3 = false.
+Proof. vm_compute. repeat split. Qed.
+
+(* the environment pass of the configuration Manager (save to the JSON form, load again) changes nobody's trust,
+   for every configuration, history and peer *)
+Theorem trust_survives_environment_pass cfg h p : trust_crdt (env_pass cfg) h p = trust_crdt cfg h p.
+Proof. exact (env_pass_same_trust cfg h p). Qed.
+Print Assumptions trust_survives_environment_pass.
+
 Theorem trust_call_takes_effect cfg h p : trust_crdt cfg (h ++ [TTrust p])%list p = true.
 Proof. exact (trust_after_trust cfg h p). Qed.
 Print Assumptions trust_call_takes_effect.
